@@ -137,6 +137,33 @@ static void check_record(const ref_hdr *f, const uint8_t *data, size_t dlen, int
 			vf_viol(site, "an entry the rules reject was returned: path=[%s] filename=[%s]", h->path ? h->path : "(null)", h->filename ? h->filename : "(null)");
 		}
 	}
+	if ((what & 4) && h && wf && (VF.index & 1) && hl + dlen + 64 < sizeof ABUF) {
+		/* the member is followed by another one and is passed over without being read: the next header is found right behind
+		 * its data (whatever the first header's length, also below the size of the stream's own look-ahead) */
+		static const uint8_t nxt[] = { 0 };
+		ref_hdr g;
+		size_t gl;
+		mem_stream ms2;
+		LHAInputStream *st2;
+		LHAReader *rd2;
+		LHAFileHeader *h2;
+		(void) nxt;
+		hdr_init(&g, 0, "-lh0-");
+		g.name = (const uint8_t *) "NEXT.TXT"; g.name_len = 8; g.size = g.packed = 0;
+		gl = ref_hdr_encode(&g, ABUF + hl + dlen, sizeof ABUF - hl - dlen);
+		if (gl) {
+			st2 = mem_open(&ms2, ABUF, hl + dlen + gl, (VF.index & 2) ? 1 : 2);
+			rd2 = lha_reader_new(st2);
+			h2 = lha_reader_next_file(rd2);
+			h2 = h2 ? lha_reader_next_file(rd2) : NULL;
+			if (!h2 || !h2->filename || strcmp(h2->filename, "next.txt")) {
+				snprintf(site, sizeof site, "%s-next-member-lost", site_prefix);
+				vf_viol(site, "the member behind this one (passed over without reading its %zu bytes of data) was not returned", dlen);
+			}
+			lha_reader_free(rd2);
+			lha_input_stream_free(st2);
+		}
+	}
 	if ((what & 4) && h && wf && dlen && !memcmp(h->compress_method, "-lh0-", 5)) {
 		uint8_t got[64];
 		size_t k = lha_reader_read(rd, got, sizeof got);
@@ -166,7 +193,7 @@ static const char *os_name(uint8_t o)
 	return b;
 }
 
-static const uint8_t ALPHA6[7] = { '.', '/', '\\', 0xFF, 0x00, 'a', '|' };
+static uint8_t ALPHA6[7] = { '.', '/', '\\', 0xFF, 0x00, 'a', '|' };
 
 static void space_paths(void)
 {
@@ -174,6 +201,11 @@ static void space_paths(void)
 	int carrier = atoi(vf_extra("carrier", "-1"));
 	int len, i, c, os_i, na;
 	int allos = atoi(vf_extra("allos", "0"));
+	if (atoi(vf_extra("controls", "0"))) {
+		/* control bytes next to letters that case folding touches: 0x0e/0x0f are '.' and '/' minus 0x20 */
+		static const uint8_t alt[7] = { 0x0E, 0x0F, '\\', 'A', 0x1F, 'Z', '|' };
+		memcpy(ALPHA6, alt, 7);
+	}
 	static uint8_t oss[256] = { 'M', 'U' };
 	int noss = 2;
 	if (allos) { for (noss = 0; noss < 256; ++noss) oss[noss] = (uint8_t) noss; }
@@ -745,7 +777,9 @@ static void space_sweeps(void)
 {
 	static const uint32_t sizes[] = { 0, 1, 5, 0xFFFF, 0x10000, 0x7FFFFFFF, 0x80000000u, 0xFFFFFFFFu };
 	static const char *names[] = { "UPPER.TXT", "MiXeD.TxT", "lower.txt", "\x83\x65\x83\x58.TXT", "DIR\\SUB\\UP.BIN", "Dir\\up.bin", "A", "12345.678",
-	                               "..cache\\F.TXT", "a\\...\\b.c", "..\\UP\\..x\\Y", ".hidden\\..\\Z" };
+	                               "..cache\\F.TXT", "a\\...\\b.c", "..\\UP\\..x\\Y", ".hidden\\..\\Z",
+	                               /* directory components that end in a byte of the Shift-JIS lead ranges (Latin-1 accented letters) */
+	                               "caf\xe9\\menu.txt", "src\\men\x81\\main.c", "\x83\\X", "A\x9f\\B\xfc\\C" };
 	static uint8_t longname[1 << 20];
 	int level, os, ni, k;
 	unsigned si;
@@ -754,7 +788,7 @@ static void space_sweeps(void)
 	/* (1) every OS type x name case classes x levels */
 	for (level = 0; level <= 3; ++level)
 	for (os = 0; os < 256; ++os)
-	for (ni = 0; ni < 12; ++ni) {
+	for (ni = 0; ni < 16; ++ni) {
 		if (level == 0 && os != 0) continue;
 		if (!vf_case("sweep os=%d level=%d name=%s", os, level, names[ni])) continue;
 		hdr_init(&f, level, "-lh5-");
